@@ -20,7 +20,7 @@ RULE = ('trash-put of one symlink per case (to file, dir, nothing, another link,
         'non-trivial = the link resolves to something (or has trailing slashes); distinct = (link kind, target volume relation, trailing '
         'slashes, reached through link, outcome)')
 ASSUMPTIONS = ["'link-to-file/' is ENOTDIR for the kernel: failing is legitimate there, following is not"]
-PROBES = ['another-link-took-the-place', 'cross-volume-fallback', 'link-trashed', 'trailing-slash-on-dirlink-trashed', 'legitimate-enotdir-refusal', 'target-other-volume', 'reached-through-link',
+PROBES = ['another-link-took-the-place', 'member-through-the-link-then-the-link', 'cross-volume-fallback', 'link-trashed', 'trailing-slash-on-dirlink-trashed', 'legitimate-enotdir-refusal', 'target-other-volume', 'reached-through-link',
           'restored-identical-link', 'dangling', 'chain', 'selfloop', 'with-force', 'with-interactive-yes', 'link-given-after-its-own-target']
 TECHNIQUE = 'deterministic simulation of put and restore on generated symlink configurations; snapshot oracle on the link target, lstat/readlink of the payload, recorded location'
 LEVEL_TEXT = 'seeded exploration of link kinds x spellings x volumes; the target subtree must be snapshot-identical after every command'
@@ -116,8 +116,13 @@ def gen(rng):
     if kind in ('file', 'dir', 'chain', 'chain_dir') and rng.random() < 0.15 and '-i' not in putopts:
         # the link's own target is given as an operand too, BEFORE the link: both are entries of their own
         also = {'file': aux + '/tfile', 'dir': aux + '/tdir', 'chain': aux + '/hop', 'chain_dir': aux + '/hopd'}[kind]
+    member_first = None
+    if not also and kind in ('dir', 'chain_dir', 'other_vol_dir') and slashes >= 1 and '-i' not in putopts and rng.random() < 0.3:
+        # an entry INSIDE the link's target, spelled through the link, is an operand too, before the link itself (written with
+        # trailing slashes, as shell completion does): 'trash-put current/stale.log current/'
+        member_first = arg.rstrip('/') + '/' + ('omember' if kind == 'other_vol_dir' else 'member')
     occupant = None
-    if rng.random() < 0.15 and not also:
+    if rng.random() < 0.15 and not also and not member_first:
         # between the put and the restore ANOTHER symlink appears where the trashed one was (the 'current' link was flipped to
         # the next release): without --overwrite the restore is refused; with it the trashed link takes the place of the new one
         # - the new link's target is never entered, written through or created
@@ -126,14 +131,14 @@ def gen(rng):
         steps.append(['f', home + '/aux/occ_file', 'occupant target', 0o644])
         occupant = {'target': rng.choice([home + '/aux/occ_dir', home + '/aux/occ_dir', home + '/aux/occ_file', home + '/aux/occ_nothing', 'occ_rel_nothing']),
                     'overwrite': rng.random() < 0.6}
-    procs = [{'argv': ['trash-put'] + putopts + ['--'] + ([also] if also else []) + [arg], 'env': env, 'cwd': home, 'uid': uid, 'stdin': 'y\ny\n'},
+    procs = [{'argv': ['trash-put'] + putopts + ['--'] + ([also] if also else []) + ([member_first] if member_first else []) + [arg], 'env': env, 'cwd': home, 'uid': uid, 'stdin': 'y\ny\n'},
              {'argv': ['trash-restore', '--sort=path'] + (['--overwrite'] if occupant and occupant['overwrite'] else []) + ['/'],
               'env': env, 'cwd': '/', 'uid': uid, 'stdin': '?'}]
     return {
         'world': {'mounts': L['mounts'], 'steps': steps},
         'procs': procs,
         'dirsalt': rng.randrange(1 << 30),
-        'note': {'kind': kind, 'slashes': slashes, 'via': via, 'also_target': also, 'occupant': occupant},
+        'note': {'kind': kind, 'slashes': slashes, 'via': via, 'also_target': also, 'occupant': occupant, 'member_first': member_first},
     }
 
 
@@ -147,6 +152,35 @@ def outside(snap, loc, tds):
             continue
         out[k] = v
     return out
+
+
+def check_member_first(sim, case, st, put, files):
+    """trash-put LINK/member LINK/: first an entry of the link's target directory, spelled through the link, then the link itself:
+    both are trashed as what they are, each with its own original location"""
+    mounts = OR.mounts_of(case)
+    snap0 = sim.snap()
+    nm_m = OP.name_entry(sim.root, put.get('cwd', '/'), files[0], snap0, mounts)
+    nm_l = OP.name_entry(sim.root, put.get('cwd', '/'), files[1], snap0, mounts)
+    if nm_m.kind != 'entry' or nm_l.kind != 'entry' or not (nm_l.ekind or '').startswith('symlink'):
+        return []
+    text = snap0[nm_l.loc][1]
+    r = sim.run(put)
+    st.sims += 1
+    st.ops += r.nops
+    snap1 = sim.snap()
+    st.probes['member-through-the-link-then-the-link'] += 1
+    outs, _p = OP.judge(sim.root, snap0, snap1, [nm_m, nm_l], mounts)
+    res = []
+    sig = '%s/after-a-member-of-its-target' % nm_l.ekind
+    for o, what in ((outs[0], 'member'), (outs[1], 'link')):
+        if o.state != 'trashed':
+            res.append(('C18/%s-not-trashed-properly/%s' % (what, sig), 'trash-put %r: %r is in state %s %s (exit %s)\nstderr: %s'
+                        % (put['argv'], o.named.loc, o.state, o.why, r.exit, r.errs[-400:])))
+    if outs[1].state == 'trashed':
+        pe = snap1.get(outs[1].tdir + '/files/' + outs[1].name)
+        if pe is None or pe[0] != 'l' or pe[1] != text:
+            res.append(('C18/payload-not-the-link/%s' % sig, 'payload is %r, expected a symlink to %r' % (pe, text)))
+    return res
 
 
 def check_with_target(sim, case, st, put, files):
@@ -194,6 +228,9 @@ def check(sim, case, st):
     also = case.get('note', {}).get('also_target')
     if also and len(files) == 2 and files[0] == also:
         return check_with_target(sim, case, st, put, files)
+    mf = case.get('note', {}).get('member_first')
+    if mf and len(files) == 2 and files[0] == mf:
+        return check_member_first(sim, case, st, put, files)
     if len(files) != 1:
         return []
     mounts = OR.mounts_of(case)
